@@ -570,6 +570,25 @@ pub fn check_main(profiles: &[Profile], id: &str, tier: Tier) -> i32 {
             }
         }
     }
+    // 4b. Miri tier (C18 thorough): finer-grained seeded schedules with data-race detection. It can
+    // only add a violation it has itself observed; when it cannot run, the verdict is that of the
+    // native engines and the evidence says so.
+    let mut miri_note = J::s("not part of this tier");
+    if p.id == "C18" && (tier == Tier::Thorough || std::env::var("VERIF_MIRI").is_ok()) {
+        let seeds: u32 = std::env::var("VERIF_MIRI_SEEDS").ok().and_then(|s| s.parse().ok()).unwrap_or(16);
+        let (note, viol) = miri_tier(seeds);
+        println!("miri tier: {}", note.compact());
+        miri_note = note;
+        if let Some(detail) = viol {
+            let path = format!("{}/replays/C18-miri.json", verif_dir());
+            let _ = std::fs::create_dir_all(format!("{}/replays", verif_dir()));
+            let _ = std::fs::write(&path, J::obj().set("property", J::s("C18")).set("clause", J::s("miri-no-data-race-no-divergence")).set("replay", J::s("cd /verif/miri && MIRIFLAGS='-Zmiri-disable-isolation -Zmiri-preemption-rate=0.1 -Zmiri-seed=<seed named in the output>' cargo +nightly miri run --offline")).set("violation", J::s(&detail)).render());
+            println!("VIOLATION property=C18 replay={}", path);
+            println!("  clause miri-no-data-race-no-divergence: {}", crate::libi::truncate(&detail, 1500));
+            exit_code = 1;
+            violations_total += 1;
+        }
+    }
     // 5. violations: minimise, write replay, verify in a fresh process
     let mut reported: BTreeSet<(String, String)> = BTreeSet::new();
     agg.violations.sort();
@@ -698,6 +717,7 @@ pub fn check_main(profiles: &[Profile], id: &str, tier: Tier) -> i32 {
         .set("known_findings_printed", J::Arr(known_lines.iter().map(|s| J::s(s)).collect()))
         .set("real_components", J::Arr(p.real.iter().map(|s| J::s(s)).collect()))
         .set("stub_components", J::Arr(p.stubs.iter().map(|s| J::s(s)).collect()))
+        .set("miri_tier", miri_note.clone())
         .set("workers", J::i(nw as i128))
         .set("event_log_digest", J::s(&format!("{:016x}", agg.log_xor)));
     let ev = J::obj()
@@ -725,4 +745,166 @@ pub fn check_main(profiles: &[Profile], id: &str, tier: Tier) -> i32 {
         exit_code
     );
     exit_code
+}
+
+// ------------------------------------------------------------------------------------------------
+// determinism self-test (DESIGN §6.1)
+// ------------------------------------------------------------------------------------------------
+
+/// `sigsim digest <id> <tier> <seed> <start> <count>`: XOR of the run digests of a range.
+pub fn digest_main(p: &Profile, tier: Tier, seed: u64, start: u64, count: u64) -> i32 {
+    let mut x = 0u64;
+    for i in start..start + count {
+        let (o, _) = run_seed(p, tier, seed, i);
+        x ^= crate::tape::mix(o.digest(), 7, i);
+        if std::env::var("VERIF_DIGEST_LIST").is_ok() {
+            println!("RUN {} {:016x}", i, o.digest());
+        }
+    }
+    println!("DIGEST {:016x}", x);
+    0
+}
+
+/// `sigsim selftest [seeds-per-profile]`: every profile, each seed run twice in different threads,
+/// then the same index range split over 1, 4 and 16 processes; all digests must agree. Also checks
+/// that the hash-seed seam really controls HashMap iteration order.
+pub fn selftest_main(profiles: &[Profile], n: u64) -> i32 {
+    let mut bad = 0;
+    // the getrandom seam
+    let a = crate::hashseed::incarnation(1, crate::hashseed::order_fingerprint).unwrap();
+    let b = crate::hashseed::incarnation(1, crate::hashseed::order_fingerprint).unwrap();
+    let orders: BTreeSet<String> = (2..12u64).map(|s| crate::hashseed::incarnation(s, crate::hashseed::order_fingerprint).unwrap()).collect();
+    println!("hash-seed seam: same seed → same order: {}; 10 seeds → {} distinct orders; seeded getrandom calls so far: {}", a == b, orders.len(), crate::hashseed::SEEDED_CALLS.load(std::sync::atomic::Ordering::Relaxed));
+    if a != b || orders.len() < 3 {
+        println!("SELFTEST-FAIL: the getrandom seam does not control HashMap iteration order on this toolchain");
+        bad += 1;
+    }
+    let seed = 777u64;
+    for p in profiles {
+        let start = Instant::now();
+        let mut mismatches = 0;
+        let mut x = 0u64;
+        for i in 0..n {
+            let (o1, t1) = run_seed(p, Tier::Quick, seed, i);
+            let (o2, t2) = run_seed(p, Tier::Quick, seed, i);
+            if o1.digest() != o2.digest() || t1 != t2 {
+                mismatches += 1;
+                if mismatches <= 2 {
+                    println!("  {} run {}: digests differ ({:016x} vs {:016x}), tapes equal: {}", p.id, i, o1.digest(), o2.digest(), t1 == t2);
+                    for (l1, l2) in o1.scenario.iter().zip(o2.scenario.iter()) {
+                        if l1 != l2 {
+                            println!("    first differing line:\n    A {}\n    B {}", crate::libi::truncate(l1, 600), crate::libi::truncate(l2, 600));
+                            break;
+                        }
+                    }
+                }
+            }
+            // replaying the recorded tape reproduces the run
+            if i % 16 == 0 {
+                let (o3, _) = execute(p, Tier::Quick, Tape::replay(t1.clone()));
+                if o3.digest() != o1.digest() {
+                    mismatches += 1;
+                    println!("  {} run {}: replay of the recorded tape gives another digest", p.id, i);
+                }
+            }
+            x ^= crate::tape::mix(o1.digest(), 7, i);
+        }
+        // the same range split over 1, 4 and 16 processes
+        let mut splits_ok = true;
+        for parts in [1u64, 4, 16] {
+            let exe = std::env::current_exe().unwrap();
+            let per = n / parts;
+            let mut children = Vec::new();
+            for k in 0..parts {
+                let cnt = if k == parts - 1 {
+                    n - per * k
+                } else {
+                    per
+                };
+                children.push(Command::new(&exe).args(["digest", p.id, "quick", &seed.to_string(), &(per * k).to_string(), &cnt.to_string()]).stdout(Stdio::piped()).spawn().expect("spawn"));
+            }
+            let mut y = 0u64;
+            for c in children {
+                let o = c.wait_with_output().expect("wait");
+                let s = String::from_utf8_lossy(&o.stdout);
+                match s.lines().find_map(|l| l.strip_prefix("DIGEST ")).and_then(|h| u64::from_str_radix(h.trim(), 16).ok()) {
+                    Some(v) => y ^= v,
+                    None => splits_ok = false,
+                }
+            }
+            if y != x {
+                splits_ok = false;
+                println!("  {}: {} processes give digest {:016x}, in-process {:016x}", p.id, parts, y, x);
+            }
+        }
+        println!("selftest {}: {} seeds twice, {} mismatches, process splits 1/4/16 agree: {} ({:.1}s)", p.id, n, mismatches, splits_ok, start.elapsed().as_secs_f64());
+        if mismatches > 0 || !splits_ok {
+            bad += 1;
+        }
+    }
+    if bad == 0 {
+        println!("SELFTEST-OK");
+        0
+    } else {
+        println!("SELFTEST-FAIL: {} profiles", bad);
+        2
+    }
+}
+
+/// Run /verif/miri under Miri with `seeds` seeds. Returns (evidence note, violation text if any).
+pub fn miri_tier(seeds: u32) -> (J, Option<String>) {
+    let dir = format!("{}/miri", verif_dir());
+    let start = Instant::now();
+    let child = Command::new("cargo")
+        .args(["+nightly", "miri", "run", "--offline"])
+        .current_dir(&dir)
+        .env("MIRIFLAGS", format!("-Zmiri-disable-isolation -Zmiri-preemption-rate=0.1 -Zmiri-many-seeds=0..{}", seeds))
+        .env("CARGO_NET_OFFLINE", "true")
+        .stdout(Stdio::piped())
+        .stderr(Stdio::piped())
+        .spawn();
+    let mut child = match child {
+        Ok(c) => c,
+        Err(e) => return (J::s(&format!("skipped (cannot start cargo miri: {})", e)), None),
+    };
+    // bounded wait
+    let budget = Duration::from_secs(std::env::var("VERIF_MIRI_SECS").ok().and_then(|s| s.parse().ok()).unwrap_or(1500));
+    loop {
+        match child.try_wait() {
+            Ok(Some(_)) => break,
+            Ok(None) => {
+                if start.elapsed() > budget {
+                    let _ = child.kill();
+                    let _ = child.wait();
+                    return (J::s(&format!("skipped (interpreter exceeded its budget of {} s)", budget.as_secs())), None);
+                }
+                std::thread::sleep(Duration::from_millis(500));
+            }
+            Err(e) => return (J::s(&format!("skipped ({})", e)), None),
+        }
+    }
+    let out = match child.wait_with_output() {
+        Ok(o) => o,
+        Err(e) => return (J::s(&format!("skipped ({})", e)), None),
+    };
+    let text = format!("{}\n{}", String::from_utf8_lossy(&out.stdout), String::from_utf8_lossy(&out.stderr));
+    let oks = text.matches("miri-tier ok").count();
+    let finding = text.contains("Undefined Behavior") || text.contains("Data race") || text.contains("data race") || text.contains("OUTCOME-MISMATCH") || text.contains("thread panicked") || text.contains("panicked at");
+    if finding {
+        let lines: Vec<&str> = text.lines().filter(|l| l.contains("error") || l.contains("Undefined") || l.contains("race") || l.contains("OUTCOME") || l.contains("seed") || l.contains("panicked") || l.contains("-->")).take(30).collect();
+        return (J::obj().set("seeds", J::i(seeds as i128)).set("completed_ok", J::i(oks as i128)).set("wall_s", J::Num(start.elapsed().as_secs_f64())).set("result", J::s("finding")), Some(lines.join(" | ")));
+    }
+    if !out.status.success() || oks == 0 {
+        let tail: Vec<&str> = text.lines().rev().take(6).collect();
+        return (J::s(&format!("skipped (miri did not run to completion: {})", tail.join(" / "))), None);
+    }
+    (
+        J::obj()
+            .set("seeds", J::i(seeds as i128))
+            .set("completed_ok", J::i(oks as i128))
+            .set("wall_s", J::Num(start.elapsed().as_secs_f64()))
+            .set("result", J::s("no data race, no undefined behaviour, no outcome divergence"))
+            .set("workload", J::s("3 threads released together x 2 validations each (6 requests with 6 different timestamps), then the 6 single-threaded; Miri's seeded preemptive scheduler and hash keys")),
+        None,
+    )
 }
